@@ -103,7 +103,7 @@ func init() {
 	register(&Check{
 		ID:    "C08",
 		Level: "exploration",
-		Rule: "exhaustive enumeration of source texts: (1) all sequences of <= k tokens over a 66-token alphabet (one representative per parser-relevant class, incl. truncated strings/comments/regex literals) in each of 14 grammatical contexts; (2) every byte prefix and every token prefix of every corpus program (docs/examples, every source compiled by the repository's tests, generated programs covering each production); (3) every one-token deletion, duplication, adjacent swap and substitution by each alphabet token of those programs; (4) every regex-literal body of <= m chars over a 24-char alphabet and every string-literal body of <= 5 chars over {backslash, x, 0, G, both quotes, blank, newline} in both quote styles; (5) every byte string of length <= 2 (thorough 3 over a 40-byte subset); (6) 32 templates with a count in every numeric position of the language (loop bounds, nested loops, amounts, regex {n,m}, process numbers) x 16 count values from 0 to 10^30 incl. 2^31, 2^32, 2^63-1, 2^63, 2^64 (pairs for two-position templates), one source per unit; (7) 44 families of nested / chained constructs (operator chains, parentheses, if / loop blocks, groups, loops, subroutines, captures, regex groups and alternations, long comments, many commands) at sizes 8..256, one source per unit; " +
+		Rule: "exhaustive enumeration of source texts: (1) all sequences of <= k tokens over a 66-token alphabet (one representative per parser-relevant class, incl. truncated strings/comments/regex literals) in each of 14 grammatical contexts; (2) every byte prefix and every token prefix of every corpus program (docs/examples, every source compiled by the repository's tests, generated programs covering each production); (3) every one-token deletion, duplication, adjacent swap and substitution by each alphabet token of those programs; (4) every regex-literal body of <= m chars over a 24-char alphabet and every string-literal body of <= 5 chars over {backslash, x, 0, G, both quotes, blank, newline} in both quote styles; (5) every byte string of length <= 2 (thorough 3 over a 40-byte subset); (6) 32 templates with a count in every numeric position of the language (loop bounds, nested loops, amounts, regex {n,m}, process numbers) x 16 count values from 0 to 10^30 incl. 2^31, 2^32, 2^63-1, 2^63, 2^64 (pairs for two-position templates), one source per unit; (8) every backslash escape (94 characters) in 9 regex shapes x 3 commands; (7) 51 families of nested / chained constructs (operator chains, parentheses, if / loop blocks, groups, loops, subroutines, captures, regex groups and alternations, long comments, many commands) at sizes 8..256, one source per unit; " +
 			"oracle: program xor error, error printable, no panic, no hang (20 s / 2 GiB watchdog), accepted tree has no nil node and every command generated; non-trivial = distinct sources that Compile rejects with an error or accepts after a non-trivial parse (all sources are distinct by construction; counted: sources with >= 2 tokens)",
 		Assume: []string{"time/memory bound is decided as: within 20 s and 2 GiB per source on the enumerated short sources"},
 		Budget: map[string]int{"quick": 150, "thorough": 1500},
@@ -330,6 +330,20 @@ func runC08(c *Ctx) {
 			}
 		}
 	}
+	// (8) every backslash escape of the regex sub-language, in every position class
+	if c.Level("regex escapes") {
+		b.label = "regex-escapes"
+		for ch := 0x21; ch < 0x7f; ch++ {
+			e := "\\" + string(rune(ch))
+			for _, shape := range []string{"@/%s/", "@/a%sb/", "@/[%s]/", "@/[^%sa]/", "@/(%s)+/", "@/%s{2}/", "@/%s?%s/", "@/(?<n>%s)\\k<n>/", "@/a|%s/"} {
+				rx := strings.ReplaceAll(shape, "%s", e)
+				b.add("find all " + rx)
+				b.add("replace all " + rx + " with 'x'")
+				b.add("set p to pattern " + rx + "\nfind all p p")
+			}
+		}
+		b.flush()
+	}
 	// (7) depth and length: every nesting / chaining construct at sizes 8..256 (the cost of compiling
 	// must not explode with the depth of an expression, a group, a loop or a block)
 	if c.Level("depth") {
@@ -424,7 +438,9 @@ func c08DeepSources() []string {
 	for _, n := range []int{8, 16, 32, 64, 128, 256} {
 		chain := func(operand, op string) string { return operand + rep(" "+op+" "+operand, n) }
 		for _, e := range []string{chain("1", "+"), chain("match", "+"), chain("1", "*"), chain("true", "and"), chain("matchLength", "-"), chain("1", "=="), chain("'a'", "+"),
-			rep("(", n) + "1" + rep(" + 1)", n), rep("(", n) + "1" + rep(")", n), rep("not ", n) + "true", rep("head ", n) + "match", "1" + rep(" + (2", n) + rep(")", n)} {
+			rep("(", n) + "1" + rep(" + 1)", n), rep("(", n) + "1" + rep(")", n), rep("not ", n) + "true", rep("head ", n) + "match", "1" + rep(" + (2", n) + rep(")", n),
+			// ill-typed at the innermost operand: the error must surface as fast as a result would
+			rep("not ", n) + "5", rep("head ", n) + "true", rep("tail ", n) + "1", rep("not ", n) + "'a'", rep("not ", n) + "(1 + true)", chain("true", "+"), chain("'a'", "-")} {
 			out = append(out, "set f to transform return "+e+" end\nreplace all 'a' with f")
 			out = append(out, "set p to pattern 'a' begin return "+e+" == 1 end\nfind all p")
 		}
